@@ -1187,13 +1187,15 @@ def check_C07(ctx):
     # stack exhaustion cannot be recovered from in Go: sentences nested 100 000 and 3 000 000 deep, each in its own child process
     deep = CaseSet()
     for n in (100000, 3000000):
-        deep.simple('deepnest', str(n), 'deep-nesting-child', depth=n)
+        deep.simple('deepnest', str(n), 'deep-nesting-child', depth=n, form='(((')
+    for n in (100000, 3000000):
+        deep.simple('deepnest', '%d not' % n, 'deep-nesting-child', depth=n, form='not (not (not (')
     dres = ctx.run(deep, label='deep', nshards=len(deep.cases), sides=('impl',), timeout=600)
     for c in deep.cases:
         io = dres.impl.get(c.id)
         if io is None:
-            ctx.violation('the process was killed (fatal error: stack overflow, not recoverable) by the sentence ((( ... x eq 1 ... ))) nested %d deep' % c.meta['depth'], [c])
-        elif io.get('verdict') != '1' or io.get('err') != 'none' or io.get('ev3') != '101' or io.get('escaped') != '0':
+            ctx.violation('the process was killed (fatal error: stack overflow, not recoverable) by the sentence %s ... x eq 1 ... ))) nested %d deep' % (c.meta['form'], c.meta['depth']), [c])
+        elif io.get('verdict') != '1' or io.get('err') != 'none' or io.get('ev3') != '101' or io.get('escaped') != '0':   # an even number of nots
             ctx.violation('the sentence ((( ... x eq 1 ... ))) nested %d deep on {x: 1} gave %s' % (c.meta['depth'], io), [c], impl=io)
     ctx.crashes = [cr for cr in ctx.crashes if not (cr[0] == 'impl' and cr[4] in deep.by_id)]
     ctx.extra['not_exhibited_by_model'] = 'panics inside the ANTLR runtime, fmt or encoding/json; fatal runtime errors (stack exhaustion, out of memory); user-defined marshalling (excluded by the statement). These are only sampled: every batch runs in a child process whose death is reported.'
